@@ -333,7 +333,7 @@ def make_monitor(defects):
 
 
 # --------------------------------------------------------------------------
-def run_group(exe, workdir, lines):
+def run_group(exe, workdir, lines, env=None):
     """run the harness on [lines]; restart after a crash so that every case gets a line"""
     os.makedirs(workdir, exist_ok=True)
     out, errs = [], ""
@@ -341,7 +341,7 @@ def run_group(exe, workdir, lines):
     guard = 0
     while rest and guard < 60:
         guard += 1
-        p = subprocess.run([exe, "A" * ARGV_PAD], input="\n".join(rest) + "\n", cwd=workdir,
+        p = subprocess.run([exe, "A" * ARGV_PAD], input="\n".join(rest) + "\n", cwd=workdir, env=env,
                            stdout=subprocess.PIPE, stderr=subprocess.PIPE, text=True, timeout=600)
         got = p.stdout.split("\n")
         if got and got[-1] == "":
@@ -409,7 +409,8 @@ def main():
             exe_a = vf.cc_harness(chk.scratch, "c19_getters_asan", ["c19_getters.c"], lib=lib_a,
                                   flavour="asan", wraps=WRAPS)
             with concurrent.futures.ThreadPoolExecutor(len(groups) or 1) as ex:
-                futs = {k: ex.submit(run_group, exe_a, os.path.join(work, k), v) for k, v in groups.items()}
+                aenv = dict(os.environ, ASAN_OPTIONS="detect_leaks=0:abort_on_error=0")
+                futs = {k: ex.submit(run_group, exe_a, os.path.join(work, k), v, aenv) for k, v in groups.items()}
                 res_a = {k: f.result() for k, f in futs.items()}
             nas = 0
             for k in groups:
@@ -420,7 +421,8 @@ def main():
                                   {"kind": "asan", "stderr": ea[-3000:]}, found_input=False)
                 for ln, x, y in zip(groups[k], on, oa):
                     nas += 1
-                    if x != y and k not in ("title", "exepath") and not x.startswith("SKIP"):
+                    if x != y and k not in ("title", "exepath") and not x.startswith("SKIP") \
+                            and not ln.startswith("sockname x |"):       # autobind: the kernel picks the name
                         chk.violation("%s: asan flavour and shipped flavour differ" % k,
                                       {"kind": "asan", "case": ln, "ndebug": x[:2000], "asan": y[:2000]},
                                       found_input=False)
